@@ -38,7 +38,11 @@ def replay_corr(chk, st, cplx):
         expect['coeff'] = np.array(M.cq_seq(out['coeff']))
     rawyx = np.array(M.cq_seq(out['rawyx']))
     lens = 'equal' if (auto or len(st['x']) == len(st['y'])) else ('x-shorter' if len(st['x']) < len(st['y']) else 'y-shorter')
+    cnt9 = getattr(chk, '_c09_kind', 0)
+    chk._c09_kind = cnt9 + 1
     kinds = ['ndarray'] if cplx else ['list', 'ndarray']
+    if cnt9 % 3 == 0:
+        kinds.append('strided-view')        # (every third state: the double loops of CORRELATION are slow)
     # mixed datatypes: a real-valued member of a complex pair is also passed with a real dtype
     xreal = all(M.cq_is_real(v) for v in st['x'])
     yreal = (not auto) and all(M.cq_is_real(v) for v in st['y'])
@@ -50,12 +54,15 @@ def replay_corr(chk, st, cplx):
     for kind in kinds:
         x = seq_in(st['x'], cplx and kind != 'x-real-dtype', kind if kind in ('list', 'ndarray') else 'ndarray')
         y = None if auto else seq_in(st['y'], cplx and kind != 'y-real-dtype', kind if kind in ('list', 'ndarray') else 'ndarray')
+        if kind == 'strided-view':
+            x = _strided(x)
+            y = None if y is None else _strided(y)
         for norm, exp in expect.items():
             for L in sorted({0, N - 1, (N - 1) // 2}):
                 case = {'fn': 'CORRELATION', 'x': x, 'y': y, 'maxlags': L, 'norm': norm, 'expect': exp[:L + 1]}
                 if norm == 'coeff' and not auto:
                     continue
-                ok, res = call_guard(CORRELATION, x if kind == 'list' else x.copy(), None if y is None else (y if kind == 'list' else y.copy()),
+                ok, res = call_guard(CORRELATION, x if kind in ('list', 'strided-view') else x.copy(), None if y is None else (y if kind in ('list', 'strided-view') else y.copy()),
                                      maxlags=L, norm=norm)
                 chk.evaluations += 1
                 if not ok:
@@ -142,6 +149,14 @@ def corr_jobs(chk):
 
 
 # ---------------------------------------------------------------- corrmtx
+def _strided(x):
+    """the same samples as a non-contiguous view (a column of a record, x[::2], z.real)"""
+    big = np.empty(2 * len(x), dtype=np.asarray(x).dtype)
+    big[0::2] = x
+    big[1::2] = 55 - np.asarray(x)[::-1]
+    return big[0::2]
+
+
 def _sorted_rows(mat):
     a = np.asarray(mat)
     if a.ndim != 2 or a.size == 0:
@@ -160,9 +175,9 @@ def replay_corrmtx(chk, st, rng):
             x = x + 1j * rng.randint(-9, 10, N)
         exp = np.array([[0 if e[0] == 0 else (np.conj(x[e[0] - 1]) if e[1] else x[e[0] - 1]) for e in row] for row in mat])
         # entry paths: the default dtype, a python list, and the narrower dtypes of the same (integer-valued) samples
-        kinds = ['ndarray', 'list'] + (['complex64'] if cplx else ['float32', 'int64', 'int16'])
+        kinds = ['ndarray', 'list', 'strided-view'] + (['complex64'] if cplx else ['float32', 'int64', 'int16'])
         for kind in kinds:
-            arg = x.copy() if kind == 'ndarray' else list(x) if kind == 'list' else x.astype(kind)
+            arg = x.copy() if kind == 'ndarray' else list(x) if kind == 'list' else _strided(x) if kind == 'strided-view' else x.astype(kind)
             case = {'fn': 'corrmtx', 'x': x, 'm': m, 'method': method, 'entry': kind, 'expect': exp}
             ok, res = call_guard(corrmtx, arg, m, method)
             chk.evaluations += 1
